@@ -94,7 +94,74 @@ func canonical(budget int) []caseSpec {
 		nodrain(mk(map[string]int{"interim:1": B}, "start1", "start2", "interim1", "graceful", "stop2")),
 		nodrain(mk(nil, "start1", "interim1", "graceful")),
 		nodrain(mk(map[string]int{"start:1": 1}, "start1", "graceful")),
+		// the outage outlasts EVERY session: all sessions are stopped while RADIUS is unreachable (the
+		// last StopSession leaves no persisted session behind), the pump uses up the second refusal,
+		// the graceful Stop() has nothing to drain and only persists the queued Stops; RADIUS is back
+		// for the next incarnation, which must deliver them
+		mk(map[string]int{"stop:1": B}, "start1", "stop1", "pump", "graceful"),
+		mk(map[string]int{"stop:1": B, "stop:2": B}, "start1", "start2", "stop1", "stop2", "pump", "pump", "graceful"),
+		mk(map[string]int{"start:1": 1, "stop:1": B}, "start1", "pump", "stop1", "pump", "graceful", "start2", "stop2"),
+		// StopSession for an identifier that is not in the session table (never started / already
+		// stopped - e.g. a Disconnect-Request for a session that has ended, or two teardown paths),
+		// followed by ordinary operations
+		mk(nil, "start1", "stop2", "stop1"),
+		mk(nil, "start1", "stop1", "stop1", "start2", "stop2"),
+		mk(nil, "start1", "stop2", "graceful"),
+		mk(nil, "start1", "interim1", "stop2", "interim1", "stop1"),
+		mk(map[string]int{"stop:1": 1}, "start1", "start2", "stop1", "stop1", "pump", "stop2"),
+		nodrain(mk(nil, "start1", "stop2", "graceful")),
 	}
+}
+
+// withUnknownStop inserts, at a seeded position, one StopSession for an identifier that is not in
+// the session table at that point: a session that was already stopped, one that an earlier
+// incarnation held (before a graceful stop), or one that has not been started (yet).
+func withUnknownStop(rng *rand.Rand, h []opSpec, nsess int) ([]opSpec, int) {
+	pos := rng.Intn(len(h)) // the rest of the history follows the unknown stop
+	inTable := map[int]bool{}
+	for _, o := range h[:pos] {
+		switch o.Op {
+		case "start":
+			inTable[o.Sid] = true
+		case "stop":
+			delete(inTable, o.Sid)
+		case "graceful":
+			inTable = map[int]bool{}
+		}
+	}
+	var cand []int
+	for k := 1; k <= nsess+1; k++ {
+		if !inTable[k] {
+			cand = append(cand, k)
+		}
+	}
+	k := cand[rng.Intn(len(cand))]
+	out := append([]opSpec{}, h[:pos]...)
+	out = append(out, opSpec{Op: "stop", Sid: k})
+	out = append(out, h[pos:]...)
+	ns := nsess
+	if k > ns {
+		ns = k
+	}
+	return out, ns
+}
+
+// sampleUnknownStop: n seeded histories with one such StopSession each.
+func sampleUnknownStop(rng *rand.Rand, n, nsess, depth, budget int) []caseSpec {
+	hs := histories(nsess, depth)
+	var out []caseSpec
+	for i := 0; i < n; i++ {
+		h := hs[rng.Intn(len(hs))]
+		ns := 1
+		for _, o := range h {
+			if o.Sid > ns {
+				ns = o.Sid
+			}
+		}
+		h2, ns2 := withUnknownStop(rng, h, ns)
+		out = append(out, caseSpec{NSess: ns2, Budget: budget, Ops: h2, Fail: randomScript(rng, h, budget), Counters: pickCounters(rng, ns2), Origin: "sampled-unknown-stop"})
+	}
+	return out
 }
 
 func nodrain(c caseSpec) caseSpec {
